@@ -455,6 +455,8 @@ def run_trid(cfg, bound, res, outs):
                 pos.append(n + 1)
         w.effective = seq
         w.effective_pos = pos           # trace length right after the event that brought each item
+        if w.gateway.observe and w.status == "quiescent" and not w.lost:
+            raise RuntimeError(f"HARNESS: Tridonic history {cfg['kinds']} was not delivered completely ({len(w.gateway.observe)} reports left; trace {w.trace[-10:]})")
         outs.add((tuple(cfg["kinds"]), (judge_late_joiner if late else judge_trid)(res, cfg, w, obs)))
         res["evaluations"] += 1
         res["traces"] += 1
